@@ -256,6 +256,54 @@ V['N28-unmarshal-helper-meta']=[('meta/exifTypes.go',[("""func (em *ExposureMode
 	return nil
 }""")])]
 
+V['N29-row-slice-rgba']=[('imagehash/transforms/pixels.go',[("""		for j := 0; j < s; j++ {
+			pixels[(i*s)+j] = pixel2Gray(colorImg.At(min.X+j, min.Y+i).RGBA())
+		}""","""		out := pixels[i*s : i*s+s]
+		for j := range out {
+			out[j] = pixel2Gray(colorImg.At(min.X+j, min.Y+i).RGBA())
+		}""")])]
+
+V['N30-offset-single-call']=[('exif2/parse.go',[("""			switch buf[0] {
+			case '-':
+				return getLocation(int32(offset * -1))
+				//return time.FixedZone(string(buf[:6]), offset*-1)
+			case '+':
+				return getLocation(int32(offset))
+				//return time.FixedZone(string(buf[:6]), offset)
+			default:
+				if ir.logLevelWarn() {
+					t.logTag(ir.logWarn()).Msgf("Uknown TimeOffset: %s", string(buf))
+				}
+				return time.UTC
+			}""","""			switch buf[0] {
+			case '-':
+				offset = -offset
+			case '+':
+			default:
+				if ir.logLevelWarn() {
+					t.logTag(ir.logWarn()).Msgf("Uknown TimeOffset: %s", string(buf))
+				}
+				return time.UTC
+			}
+			return getLocation(int32(offset))""")])]
+V['N31-gps-sign-local']=[('exif2/model.go',[("""	if g.latitudeRef {
+		return -1 * g.latitude
+	}
+	return g.latitude""","""	lat := g.latitude
+	if g.latitudeRef {
+		lat = -lat
+	}
+	return lat""")])]
+
+V['N32-quote-loop-xmp']=[('xmp/reader.go',[("""			if b := bytes.IndexByte(buf[i:], delim); b >= 0 {""","""			b := -1
+			for j := i; j < len(buf); j++ {
+				if buf[j] == delim {
+					b = j - i
+					break
+				}
+			}
+			if b >= 0 {""")])]
+
 def build(name, edits, out):
     d=tempfile.mkdtemp(prefix='imverif-neutral-',dir='/var/tmp')
     try:
